@@ -51,6 +51,19 @@ example : (consume ["B"] false [(1, 0, 0), (2, 0, 0), (3, 0, 0), (4, 0, 0)]
     offset ["B"] false [⟨"A", [(0, 1), (1, 0)]⟩, ⟨"B", [(2, 0)]⟩, ⟨"A", [(3, 0), (4, 1)]⟩, ⟨"A", [(5, 0)]⟩] 2 = 2 ∧
     sortByIndex [(0, 1), (1, 0)] = [1, 0] := by decide
 
+/-- **Excluded point, reachable through `-c` together with `-mc`** (KNOWN-FINDING shape
+`combined-c-and-mc`): both files are read from the first residue on, so a residue whose atoms were given
+with `-c` but that lies beyond the centres of `-mc` ends up flagged `build = true` while it keeps its
+position — the state `build ∧ supplied` that `Mol.WF.buildNoPos` (hypothesis of the C17 theorems and of
+`C04_ignore_rest_complete`) excludes and that a single call never produces (`C04_consume_flags`).
+Three one-atom residues, three coordinates with `-c`, one centre with `-mc`. -/
+theorem C04_combined_counterexample :
+    ∃ outs, consumeBoth [] [(1, 0, 0), (2, 0, 0), (3, 0, 0)] [(1, 0, 0)]
+        [⟨"A", [(0, 0)]⟩, ⟨"A", [(1, 0)]⟩, ⟨"A", [(2, 0)]⟩] = some outs ∧
+      ∃ o, outs[1]? = some o ∧ o.build = true ∧ o.pos.isSome = true ∧ o.atomPos ≠ [] := by
+  refine ⟨_, rfl, _, rfl, ?_⟩
+  decide
+
 /-- **Supplied positions survive every schedule.**  For every system (no hypothesis on it), every
 rewind depth, every schedule of trial outcomes — hence every pattern of failed steps, rewinds, abandoned
 attempts and retries — at every reachable state the engine holds, for every residue of a non-ignored
